@@ -652,7 +652,7 @@ func TestCheck(t *testing.T) {
 			extraRule = "; plus every sequence of exactly 6 tokens that starts with an item-type token (L, A, B, U1, F4, BOOLEAN), behind the prefix, through sml.Parse and sml.ParseStrict"
 		}
 		c.Rule(fmt.Sprintf("E1 sweep: every sequence of <= %d tokens over the 26-token alphabet %q and every byte string of length <= 2 over 256 values and of length 3 over 64 chosen bytes, each as-is and behind %q, through sml.Parse, sml.ParseStrict and Parser.Parse / ParseMessage / ParseHeader (strict and non-strict, long-lived reused instances). Oracle per call: no panic; messages xor error ((empty,nil) / ErrNoMessage only for blank-or-comment input, and always for whitespace-only input); messages valid (stream<=127, W only on odd function, body Error()==nil); *ParseError has 0<=Offset<=len, Line and Col recomputed from the input (Col unit: bytes or runes, but one unit throughout); reused instance == fresh instance; TotalAlloc delta <= 1MiB+64*len+len^2 on every 50th case. non-trivial = input not whitespace-only%s", maxTok, tokens, itemPrefix, extraRule))
-		c.Rule("resource families, each point in a worker sub-process (ulimit -v 4 GiB, horizon 60 s of CPU time, doubled once before a hang is reported): nesting depth of <L (open and closed), size hints [h] / [0..h] / [..h] for all 16 item types with h in {0,1,65536,2^24,2^31-1,2^31,2^32,2^63-1,2^63}, unterminated strings / numbers / comments, n messages without items, wide lists and arrays; oracle: exit status 0, messages xor error, positions as above, TotalAlloc <= 1MiB+64*len+len^2, and along each scaling series TotalAlloc and Mallocs grow at most quadratically (ratio <= (ratio of n)^2 * 4)")
+		c.Rule("resource families, each point in a worker sub-process (ulimit -v 4 GiB, horizon 60 s of CPU time, doubled once before a hang is reported): nesting depth of <L in {10..10^6, (2*10^6 thorough), 4*10^6} (open and closed), size hints [h] / [0..h] / [..h] for all 16 item types with h in {0,1,65536,2^24,2^31-1,2^31,2^32,2^63-1,2^63}, unterminated strings / numbers / comments, n messages without items, wide lists and arrays; oracle: exit status 0, messages xor error, positions as above, TotalAlloc <= 1MiB+64*len+len^2, and along each scaling series TotalAlloc and Mallocs grow at most quadratically (ratio <= (ratio of n)^2 * 4)")
 		c.Rule("shared state: every package-level var of <repo>/sml (go/ast on the current tree) is an error sentinel, a blank interface assertion or a never-written literal table; N goroutines with their own Parser/Encoder instances over a corpus give the sequential results (also TestRaceSML under -race)")
 		c.Assume("Go runtime and race detector", "runtime.MemStats.TotalAlloc/Mallocs as the deterministic work proxy (wall-clock is a horizon only)",
 			"shared-state scan is syntactic: a literal table aliased into an instance and written through the alias is not seen (left to the -race pass)")
